@@ -144,3 +144,16 @@ def in_place_pairs(strategy):
         return {"__pair__": [a, b]}
 
     return st.tuples(strategy, strategy).map(align)
+
+
+def drop_user_cache(url, images):
+    """remove the index files a case wrote into the (per-worker) user cache dir"""
+    import contextlib
+
+    from vf.props import c07
+
+    for image in images:
+        p = c07.user_index_path(url, image)
+        p.unlink(missing_ok=True)
+        with contextlib.suppress(OSError):
+            p.parent.rmdir()
